@@ -1,4 +1,5 @@
 import SLModel.Lemmas.ContentsInv
+import SLModel.Lemmas.ContentsLog
 /-!
 # C04 — committed contents follow upsert/delete/rollback semantics
 
@@ -123,6 +124,31 @@ theorem newWriter_after_rollback (cfg : Cfg δ) (s : St ι δ) (h h' : Nat) (hd 
 /-- filesystem backend: the pending operations are exactly the appended ones, in order -/
 theorem fs_pending (ops : List (Op ι δ)) (pos : Nat) (op : Op ι δ) (ser size : Nat) :
     ((Log.fs ops).append pos op ser size).1.pending = ops ++ [op] := rfl
+
+/-- the log never invents operations (both backends): whatever a new handle would inherit and
+whatever any handle has queued was supplied by an `add`/`delete` call of the history -/
+theorem queues_only_called_ops (proj : δ → δ) (mem : Bool) (cs : List (Call ι δ)) :
+    (∀ op ∈ (Spec.run proj mem cs).log.pending, op ∈ callOps cs) ∧
+    (∀ p ∈ (Spec.run proj mem cs).handles, ∀ op ∈ p.2.queue, op ∈ callOps cs) := by
+  obtain ⟨A, hA, hi⟩ := spec_run_opsInv proj mem cs
+  exact ⟨fun op h => hA op (pending_subset hi.log op h),
+    fun p hp op ho => hA op (hi.queues p hp op ho)⟩
+
+/-- … and every document a reader sees is the stored projection of a document some `add` call
+supplied for that id ("and nothing else") -/
+theorem contents_only_added (cfg : Cfg δ) (hproj : ∀ d, cfg.proj (cfg.proj d) = cfg.proj d)
+    (mem : Bool) (cs : List (Call ι δ)) (i : ι) (d : δ)
+    (h : d ∈ copies (run cfg mem cs).segs i) :
+    ∃ d0, Op.add i d0 ∈ callOps cs ∧ d = cfg.proj d0 := by
+  rw [(contents_refines cfg hproj mem cs).2.2 i] at h
+  obtain ⟨A, hA, hi⟩ := spec_run_opsInv cfg.proj mem cs
+  have hm : (i, d) ∈ (Spec.run cfg.proj mem cs).committed := by
+    apply alGet_some_mem
+    cases hg : alGet (Spec.run cfg.proj mem cs).committed i with
+    | none => simp [hg] at h
+    | some x => simp [hg] at h; rw [h]
+  obtain ⟨d0, h1, h2⟩ := hi.committed i d hm
+  exact ⟨d0, hA _ h1, h2⟩
 
 /-! ## non-vacuity and witnesses (ids and documents are naturals, projection = identity) -/
 
